@@ -399,15 +399,51 @@ def gen_burst(r, store, sids):
     boxes = [m["name"] for m in store["mailboxes"]]
     sizes = {m["name"]: len(m["msgs"]) for m in store["mailboxes"]}
     sel = {s: r.choice(boxes) for s in sids}
+    # "conflict stress": everybody on one mailbox, wide overlapping sets (multi-message COPY/MOVE
+    # read loops racing STOREs), so that the conflict relation is what keeps results serializable
+    stress = r.random() < 0.35
+    if stress:
+        b0 = r.choice(boxes)
+        sel = {s: b0 for s in sids}
     n = [0]
 
     def uids(box, k=None):
         size = sizes[box]
+        if stress and r.random() < 0.6:
+            lo = r.randint(1, max(size - 1, 1))
+            return list(range(lo, min(size, lo + r.randint(1, 4)) + 1))
         k = k or r.randint(1, min(3, max(size, 1)))
         return sorted(set(r.randint(1, max(size, 1) + 1) for _ in range(k)))
 
     sessions = {}
     tok = 500
+    if len(sids) >= 3 and r.random() < 0.15:
+        # triad aimed at the conflict relation: a long-running command on a message outside the
+        # range, a wide multi-message reader (COPY/MOVE/FETCH), and a STORE inside the range, all
+        # on one mailbox within a few ms - results stay serializable only if the STORE is held back
+        b0 = r.choice(boxes)
+        size = max(sizes[b0], 3)
+        other = [b for b in boxes if b != b0] or [b0]
+        lo = r.randint(1, max(size - 2, 1))
+        hi = min(size - 1, lo + r.randint(1, 4)) if size > 2 else lo
+        rng_u = list(range(lo, hi + 1))
+        outside = [u for u in range(1, size + 1) if u not in rng_u] or [size + 1]
+        first = r.choice(("store", "fetch", "copy"))
+        o1 = {"kind": first, "box": b0, "uids": [r.choice(outside)], "delay": 0.0, "n": 1}
+        if first == "store":
+            o1.update(how=r.choice("+-"), flags=[r.choice(FLAGS)])
+        elif first == "copy":
+            o1.update(dst=r.choice(other))
+        o2 = {"kind": r.choice(("copy", "copy", "move", "fetch")), "box": b0, "uids": rng_u, "delay": r.choice((0.0, 0.0005, 0.002)), "n": 2}
+        if o2["kind"] in ("copy", "move"):
+            o2["dst"] = r.choice(other)
+        k = r.randint(1, len(rng_u))
+        o3 = {"kind": "store", "box": b0, "uids": sorted(r.sample(rng_u, k)), "how": r.choice("+-="), "flags": sorted(set(r.sample(FLAGS, r.randint(1, 2)))),
+              "delay": r.choice((0.001, 0.005, 0.02, 0.05, 0.1, 0.3)), "n": 3}
+        order = list(sids[:3])
+        r.shuffle(order)
+        burst = {"sessions": {order[0]: [o1], order[1]: [o2], order[2]: [o3]}}
+        return burst, {s: b0 for s in sids}
     for s in sids:
         ops = []
         box = sel[s]
